@@ -1,7 +1,7 @@
 /* C05: sqfs_data_reader_get_block (per-block access) for an arbitrary
- * well-formed file inode with ANY number of block words (symbolic; the walk
- * over the preceding words is closed by a loop contract), any index, every
- * legal block size (symbolic).
+ * well-formed file inode with ANY number of block words (symbolic), every
+ * legal block size (symbolic); the index is any value that is out of range or
+ * <= GB_MAXIDX (the walk over the preceding words is unwound, bounded).
  *
  *   C05.get_block.index_checked   index >= block count => OUT_OF_BOUNDS and
  *                                 nothing read
@@ -35,8 +35,14 @@ void harness(void)
 	env_objects_init();
 	rd = dr_new(NULL);
 	ino = di_new_file(&g_di_nblk);
-	if (index < g_di_nblk)
-		ino->extra[index] = verif_nd_u32("ino.word");
+	VERIF_ASSUME(index >= g_di_nblk || index <= GB_MAXIDX);
+	if (index < g_di_nblk) {
+		size_t j;
+		for (j = 0; j <= GB_MAXIDX; ++j) {
+			if (j <= index)
+				ino->extra[j] = verif_nd_u32("ino.word");
+		}
+	}
 
 	ret = sqfs_data_reader_get_block(rd, ino, index, &size, &out);
 
@@ -50,7 +56,7 @@ void harness(void)
 	} else {
 		VERIF_ASSERT(out == NULL && size == 0, "C05.get_block.result");
 	}
-	VERIF_COVER(ret == 0 && index > 5 && g_blk_n == 1);
+	VERIF_COVER(ret == 0 && index == GB_MAXIDX && g_blk_n == 1);
 	VERIF_COVER(ret == 0 && g_env_seq == 0);
 	VERIF_COVER(ret != 0 && index < g_di_nblk);
 	VERIF_COVER(ret != 0 && index >= g_di_nblk);
